@@ -131,6 +131,16 @@ def make_request(c, schema, i, t, v):
         vars_.append({"name": vn, "type": ty_str(vt)})
         provided[vn] = literal_to_json(schema, pt, sub)
         field("nested%d" % k, e, [["a", replace_at(v, path, ["var", vn])]]); ways["nested%d" % k] = "same"
+    # a nullable variable with a default is legal at a nested non-null position; a run-time null must fail the field
+    for k, (path, pt, sub) in enumerate(subs[:8]):
+        if pt[0] == "NN" and sub[0] != "null":
+            vn = "rn%d" % k
+            vars_.append({"name": vn, "type": ty_str(pt[1]), "default": sub})
+            provided[vn] = None
+            field("nested_runtime_null", e, [["a", replace_at(v, path, ["var", vn])]]); ways["nested_runtime_null"] = "field_error"
+            vars_.append({"name": vn + "ok", "type": ty_str(pt[1]), "default": sub})
+            field("nested_vardef", e, [["a", replace_at(v, path, ["var", vn + "ok"])]]); ways["nested_vardef"] = "same"
+            break
     # directive positions
     field("dlit", "s", dirs=[{"name": d, "args": [["a", v]]}]); ways["dlit"] = "same_dir"
     field("dvar", "s", dirs=[{"name": d, "args": [["a", ["var", "w"]]]}]); ways["dvar"] = "same_dir"
